@@ -102,6 +102,11 @@ func beginsWith(args ...Object) Object {
 	path := args[0]
 	substr := args[1]
 
+	if isUndefined(path) {
+		// a missing attribute begins with nothing
+		return FALSE
+	}
+
 	if path.Type() == ObjectTypeString {
 		if substr.Type() != ObjectTypeString {
 			return newError("invalid substr type %s", substr.Type())
@@ -127,6 +132,11 @@ func beginsWith(args ...Object) Object {
 func contains(args ...Object) Object {
 	path := args[0]
 	operand := args[1]
+
+	if isUndefined(path) {
+		// a missing attribute contains nothing
+		return FALSE
+	}
 
 	container, ok := path.(ContainerObject)
 	if !ok {
